@@ -20,6 +20,7 @@ import (
 	"0chain.net/chaincore/node"
 	"0chain.net/chaincore/round"
 	"0chain.net/core/common"
+	"0chain.net/core/datastore"
 	"0chain.net/core/encryption"
 	"0chain.net/miner"
 	hb "github.com/herumi/bls-go-binary/bls"
@@ -186,7 +187,19 @@ func (o *outcome) fail(k, d string) {
 
 const prevHash = "ed79cae70d439c11258236da1dfa6fc550f7cc569768304623e8fbd7d70efae4"
 
-func run(s scen) *outcome {
+// run executes one scenario; a panic of the code under test is reported as a failure of the
+// scenario (the node would crash on that input).
+func run(s scen) (res *outcome) {
+	defer func() {
+		if r := recover(); r != nil {
+			res = &outcome{descs: map[string]string{}, hist: map[string]int{}}
+			res.fail("node-panics", fmt.Sprintf("the code under test panicked: %v", r))
+		}
+	}()
+	return run1(s)
+}
+
+func run1(s scen) *outcome {
 	o := &outcome{descs: map[string]string{}, hist: map[string]int{}}
 	w, out := world(s.N, s.WorldSeed)
 	for _, m := range w.Miners {
@@ -207,6 +220,7 @@ func run(s scen) *outcome {
 	pb.SetRoundRandomSeed(777)
 	pb.SetStateStatus(block.StateSuccessful)
 	pb.SetBlockState(block.StateNotarized)
+	pb.SetBlockNotarized() // the previous block is settled: processVerifyBlock's background update of it returns at once
 	c.SetLatestFinalizedMagicBlock(pb)
 	c.SetLatestFinalizedBlock(pb)
 	c.AddBlock(pb)
@@ -264,8 +278,6 @@ func run(s scen) *outcome {
 			i = 9999
 		}
 		coqStore = append(coqStore, i)
-		good, _ := w.Miners[0].Scheme.Verify("00", b.Hash)
-		_ = good
 		if i >= s.N || !verifies(w.Miners[i], vt.Signature, b.Hash) {
 			o.fail("invalid-ticket-stored", fmt.Sprintf("the round's ticket store holds a ticket of verifier %s that is not a valid signature of a miner of the magic block", vt.VerifierID))
 		}
@@ -282,15 +294,12 @@ func run(s scen) *outcome {
 	rb := b
 	if s.JSON {
 		rb = block.NewBlock(c.GetKey(), rn)
-		if err := rb.Decode(b.Encode()); err != nil {
-			panic(err)
-		}
-		if err := rb.ComputeProperties(); err != nil {
+		if err := datastore.FromJSON(datastore.ToJSON(b), rb); err != nil {
 			panic(err)
 		}
 	}
 	perr := v.MC.VerifProcessVerifyBlock(ctx, rb)
-	time.Sleep(2 * time.Millisecond)
+	time.Sleep(3 * time.Millisecond)
 	notarized := rb.IsBlockNotarized()
 	inRound := false
 	for _, nb := range mr.GetNotarizedBlocks() {
@@ -301,6 +310,11 @@ func run(s scen) *outcome {
 	o.hist[fmt.Sprintf("process-notarized-%v", notarized)]++
 	if perr != nil {
 		o.hist["process-error"]++
+		if len(perr.Error()) > 60 {
+			o.hist["process-error: "+perr.Error()[:60]]++
+		} else {
+			o.hist["process-error: "+perr.Error()]++
+		}
 	}
 	// what was counted: the block's tickets after merging
 	var merged []int
@@ -478,7 +492,7 @@ func main() {
 		"another miner carrying such tickets (or only forged ones, or one valid ticket repeated) through the real processVerifyBlock (optionally via its JSON " +
 		"encoding), then VerifyNotarization on ticket lists incl. exactly threshold valid ones, threshold-1, and pairs of signatures whose errors cancel; " +
 		"all orders of up to 6 tickets for one small instance; non-trivial = a scenario with at least one rejected and one stored ticket message, or a block carrying tickets"
-	cf := &vh.CasesFile{Imports: []string{"Base.Corr", "Model.Notarize", "Corr.Notarize"}, CaseType: "ntc_case", CheckFn: "ntc_check", Shard: 40}
+	cf := &vh.CasesFile{Imports: []string{"Base.Corr", "Model.Notarize", "Corr.Notarize"}, CaseType: "ntc_case", CheckFn: "ntc_check", Shard: 14}
 
 	handle := func(s scen) {
 		out := run(s)
@@ -487,8 +501,10 @@ func main() {
 		}
 		rep.Count(fmt.Sprintf("n=%d", s.N))
 		rep.Case(key(s), len(s.Own) > 0 || len(s.Arrivals) > 1, s)
-		cf.Add(out.coq)
-		rep.CaseInputs = append(rep.CaseInputs, s)
+		if out.coq != "" {
+			cf.Add(out.coq)
+			rep.CaseInputs = append(rep.CaseInputs, s)
+		}
 		for _, k := range out.fails {
 			min := s
 			// minimise the three ticket lists while the same failure remains
@@ -530,7 +546,7 @@ func main() {
 			panic(err)
 		}
 		rep.CaseFiles = files
-		rep.ShardSize = 40
+		rep.ShardSize = 14
 		rep.Write(o.Out)
 	}
 	var rs scen
@@ -540,9 +556,13 @@ func main() {
 		return
 	}
 	rnd := vh.NewRand(o.Seed)
-	for _, n := range []int{1, 2, 3, 4, 5, 7, 10} {
+	// the suspected defect F-31 first, in its plainest form: 4 miners (threshold 3), a block of miner 1
+	// received by miner 0 over the wire format with 3 tickets of made-up verifiers and undecodable signatures
+	handle(scen{N: 4, WorldSeed: 31, Self: 0, Gen: 1, JSON: true,
+		Own: []tk{{-1, "garbage"}, {-2, "garbage"}, {-3, "garbage"}}})
+	for _, n := range []int{4, 2, 3, 1, 5, 7, 10} {
 		wseed := rnd.U64() % 1000000
-		for k := 0; k < o.N(12, 120); k++ {
+		for k := 0; k < o.N(8, 120); k++ {
 			handle(gen(rnd, n, wseed))
 		}
 	}
